@@ -72,7 +72,7 @@ pub fn run(seed: u64, ntraces: usize) {
             w.set_time(now);
             let anyone = r.pick(&users).clone();
             let fo = if forced.is_empty() { None } else { Some(forced.remove(0)) };
-            let k = if let Some((fk, _)) = fo { fk } else if flow_focus { *r.pick(&[0u64, 0, 0, 1, 1, 1, 2, 2, 15]) } else if ty == 0 && r.chance(1, 2) { *r.pick(&[12u64, 13, 14, 14, 16, 16, 0, 1, 9, 10, 11]) } else { r.below(17) };
+            let k = if let Some((fk, _)) = fo { fk } else if flow_focus { *r.pick(&[0u64, 0, 0, 1, 1, 1, 2, 2, 15]) } else if ty == 0 && r.chance(1, 2) { *r.pick(&[12u64, 13, 14, 14, 16, 16, 0, 1, 9, 10, 11]) } else { r.below(18) };
             let pl = prev_limit;
             let amt = |r: &mut Rng, limit: u64| -> u64 { if limit > 0 { match r.below(9) { 0 => limit, 1 => limit + 1, 2 => limit.saturating_sub(1).max(1), 3 => 1, 4 => pl.max(1), 5 => pl.saturating_sub(limit).max(1), 6 => 2 * limit, _ => 1 + r.below(limit + 2) } } else { match r.below(4) { 0 => 0, _ => 1 + r.below(50) } } };
             let mut opj; let step;
@@ -146,6 +146,17 @@ pub fn run(seed: u64, ntraces: usize) {
                     if step.res.result_status == 0 { if let Some(ac) = step.res.pending_calls.async_call.clone() { pending.push(ac); } }
                     opj = json!({"op": "deployToken", "caller": hx(caller.as_bytes()), "minter": minter.as_ref().map(|a| hx(a.as_bytes())), "name": hx(&name), "symbol": hx(&symbol), "egld": egld.to_string(), "esdt": []});
                 }
+                17 => { // an upgrade by the owner carrying OTHER constructor arguments (another service, type, token id, operator, token): what deployment recorded stays
+                    let ns = if r.chance(1, 4) { s.clone() } else { anyone.clone() };
+                    let nty = r.below(6); let ntid = r.bytes(32);
+                    let nop: Option<VMAddress> = match r.below(3) { 0 => None, 1 => Some(x.clone()), _ => Some(op.clone()) };
+                    let ntok: Option<Vec<u8>> = match r.below(4) { 0 => None, 1 => Some(b"EGLD".to_vec()), 2 => Some(b"OTHER-abcdef".to_vec()), _ => Some(tok.clone()) };
+                    let mut np = opt_addr_nested(&nop); np.extend(opt_token_nested(&ntok));
+                    step = w.tx(&owner, &tmaddr, "upgrade", vec![ns.to_vec(), if nty == 0 { vec![] } else { vec![nty as u8] }, ntid.clone(), np], &bn(0), &[]);
+                    if step.res.result_status == 0 && cur_token.is_none() { if let Some(tk) = &ntok { cur_token = Some(tk.clone()); } }
+                    opj = json!({"op": "upgrade", "caller": hx(owner.as_bytes()), "service": hx(ns.as_bytes()), "type": nty, "tid": hx(&ntid),
+                                 "operator": nop.as_ref().map(|a| hx(a.as_bytes())), "token": ntok.as_ref().map(|t| hx(t))});
+                }
                 15 => { // view-like no-op: time passes only
                     step = w.tx(&x, &tmaddr, "getFlowLimit", vec![], &bn(0), &[]);
                     opj = json!({"op": "getFlowLimit", "caller": hx(x.as_bytes())});
@@ -163,10 +174,15 @@ pub fn run(seed: u64, ntraces: usize) {
                         let forged = if ok {
                             TxResult { result_status: 0, result_values: vec![newtok.clone()], ..TxResult::empty() }
                         } else { TxResult { result_status: 4, result_message: "issue failed".to_string(), ..TxResult::empty() } };
-                        let cb = async_callback_tx_input(&ac, &forged, &w.r.blockchain_mock.vm.builtin_functions);
-                        let tma = tmaddr.clone(); let nt = newtok.clone();
-                        step = w.run_input_after(move |r| { if ok { let acc = r.blockchain_mock.state.accounts.get_mut(&tma).unwrap(); acc.egld_balance -= bn(ISSUE_COST);
-                            acc.esdt.set_roles(nt.clone(), vec![b"ESDTRoleLocalMint".to_vec(), b"ESDTRoleLocalBurn".to_vec()]); } }, cb);
+                        let mut cb = async_callback_tx_input(&ac, &forged, &w.r.blockchain_mock.vm.builtin_functions);
+                        // a failed issuance RETURNS the issue cost with the error callback (it left the manager with the call): the callback carries that EGLD
+                        let returned = !ok && tm_egld >= bn(ISSUE_COST);
+                        if returned { cb.egld_value = bn(ISSUE_COST); }
+                        let tma = tmaddr.clone(); let nt = newtok.clone(); let sys = cb.from.clone();
+                        step = w.run_input_after(move |r| {
+                            if ok || returned { let acc = r.blockchain_mock.state.accounts.get_mut(&tma).unwrap(); acc.egld_balance -= bn(ISSUE_COST);
+                                if ok { acc.esdt.set_roles(nt.clone(), vec![b"ESDTRoleLocalMint".to_vec(), b"ESDTRoleLocalBurn".to_vec()]); } }
+                            if returned { crate::vm::credit_or_create(r, &sys, &bn(ISSUE_COST)); } }, cb);
                         if ok && step.res.result_status == 0 { cur_token = Some(newtok.clone()); }
                         opj = json!({"op": "issueCallback", "result": if ok { Some(hx(&newtok)) } else { None }});
                     }
